@@ -85,7 +85,22 @@ def fingerprint(sh, obj):
             return f()
         except Exception as e:
             return 'EXC:' + type(e).__name__
-    out = [safe(lambda: sh.cssText), safe(lambda: [type(r).__name__ for r in sh.cssRules]),
+    def literal():
+        # the serialisation that shows the spellings as written (literal at-keywords, property names, priorities) and
+        # everything the default omits
+        import css_parser
+        prefs = css_parser.ser.prefs
+        keys = ('defaultAtKeyword', 'defaultPropertyName', 'defaultPropertyPriority', 'keepAllProperties', 'keepEmptyRules',
+                'keepUnknownAtRules', 'keepComments')
+        old = {k: getattr(prefs, k) for k in keys}
+        try:
+            prefs.defaultAtKeyword = prefs.defaultPropertyName = prefs.defaultPropertyPriority = False
+            prefs.keepAllProperties = prefs.keepEmptyRules = prefs.keepUnknownAtRules = prefs.keepComments = True
+            return (sh.cssText, getattr(obj, 'cssText', None))
+        finally:
+            for k, v in old.items():
+                setattr(prefs, k, v)
+    out = [safe(lambda: sh.cssText), safe(literal), safe(lambda: [type(r).__name__ for r in sh.cssRules]),
            safe(lambda: dict(sh.namespaces.namespaces)), safe(lambda: sh.encoding)]
     for name in ('cssText', 'selectorText', 'mediaText', 'name', 'value', 'priority', 'wellformed', 'valid', 'encoding',
                  'prefix', 'namespaceURI', 'literalname', 'atkeyword', 'href', 'specificity'):
@@ -109,6 +124,10 @@ WRONG_KIND = ['@charset "ascii";', '@import "q.css";', '@namespace r "u3";', 'k 
 
 def mutate(rnd, text):
     """invalid candidates from a valid text"""
+    if rnd.random() < 0.3:
+        # another spelling of the keywords and names (equivalent by C10), so that a partial update shows in the literal
+        # serialisation even when the rejected text is a mutation of the object's own text
+        text = ''.join(ch.upper() if ch.isalpha() and rnd.random() < 0.5 else ch for ch in text)
     k = rnd.random()
     if k < 0.2 and text:
         i = rnd.randrange(len(text))
